@@ -28,6 +28,7 @@ type opCase struct {
 	// 2 an infinity, 3 a longer value rounded into it, 4 a negative zero
 	dirty     int
 	noSoil    bool   // C10's reference execution: a truly fresh receiver
+	hugeOK    bool   // the generator allows a receiver precision at the top of the uint32 range
 	spareCap  int    // extra capacity (words) of the buffer of an operand that is also the receiver
 	opSeed    int64  // seed of the generator used while building operands (stale specials)
 	lastCanon string // walker verdict on the receiver after the last execShape call ("" = canonical)
@@ -154,11 +155,48 @@ func (k *opCase) attrs(r *hx.RNG) {
 	}
 	k.xp, k.yp, k.up = extra(), extra(), extra()
 	k.xm, k.ym, k.um = r.Mode(), r.Mode(), r.Mode()
+	// A precision only bounds the mantissa: operands may carry precisions at the top of the uint32 field
+	// (MaxPrec, within a word of it, around 2^31) at no cost. Nothing about the result depends on them.
+	huge := func(v oracle.Val, cur uint) uint {
+		if !r.Chance(4) {
+			return cur
+		}
+		return hugePrec(r) // (an absolute precision: see opPrec)
+	}
+	k.xp, k.yp, k.up = huge(k.x, k.xp), huge(k.y, k.yp), huge(k.u, k.up)
+	switch k.op { // the receiver too, where the work does not grow with the precision: the result is then exact
+	case "Add", "Sub", "Mul", "FMA", "Set", "Neg", "Abs":
+		if k.hugeOK && r.Chance(2) {
+			k.p = int64(hugePrec(r))
+		}
+	}
 	if r.Chance(60) {
 		k.dirty = r.Range(1, 4)
 	}
 	k.opSeed = int64(r.U64() >> 1)
 	k.x, k.y, k.u = inRange(k.x), inRange(k.y), inRange(k.u)
+}
+
+// opPrec is the precision an operand is built with: its digit count plus the extra drawn by attrs, or, when
+// attrs drew a precision from the top of the range, that precision itself.
+func opPrec(v oracle.Val, extra uint) uint {
+	if extra >= 1<<30 {
+		return extra
+	}
+	return digitsOf(v) + extra
+}
+
+// xPrec is the precision for an operand that is only read: its digits plus extra, or, 4 times in 100, a precision
+// from the top of the range (a precision only bounds the mantissa; nothing is allocated for it).
+func xPrec(r *hx.RNG, v oracle.Val, extra uint) uint {
+	if v.Form == oracle.Finite && r.Chance(4) {
+		return hugePrec(r)
+	}
+	return digitsOf(v) + extra
+}
+
+func hugePrec(r *hx.RNG) uint {
+	return []uint{decimal.MaxPrec, decimal.MaxPrec - 1, decimal.MaxPrec - 17, decimal.MaxPrec - 18, 1 << 31, 1<<31 + 2, 1<<31 - 1, decimal.MaxPrec - uint(r.Range(0, 60))}[r.Intn(8)]
 }
 
 // inRange moves a finite operand back into the representable exponent range
@@ -190,17 +228,17 @@ func (k *opCase) exec() (hx.State, *hx.PanicInfo) {
 	if k.opSeed != 0 {
 		or = hx.NewRNG(k.opSeed, "operands", 0)
 	}
-	X := hx.MkR(or, k.x, digitsOf(k.x)+k.xp, k.xm)
+	X := hx.MkR(or, k.x, opPrec(k.x, k.xp), k.xm)
 	var Y, U *decimal.Decimal
 	if k.arity() >= 2 {
 		if k.sameXY {
 			Y = X
 		} else {
-			Y = hx.MkR(or, k.y, digitsOf(k.y)+k.yp, k.ym)
+			Y = hx.MkR(or, k.y, opPrec(k.y, k.yp), k.ym)
 		}
 	}
 	if k.arity() == 3 {
-		U = hx.MkR(or, k.u, digitsOf(k.u)+k.up, k.um)
+		U = hx.MkR(or, k.u, opPrec(k.u, k.up), k.um)
 	}
 	z := new(decimal.Decimal).SetPrec(uint(k.p)).SetMode(decimal.RoundingMode(k.mode))
 	soil(z, k.dirty)
@@ -226,7 +264,7 @@ func (k *opCase) exec() (hx.State, *hx.PanicInfo) {
 			z.Abs(X)
 		case "SetPrec":
 			// the receiver holds x (at a precision that holds it exactly) and is then re-rounded
-			z = hx.Mk(k.x, digitsOf(k.x)+k.xp, k.mode)
+			z = hx.Mk(k.x, opPrec(k.x, k.xp), k.mode)
 			z.SetPrec(uint(k.p))
 		default:
 			panic("arith: unknown op " + k.op)
@@ -360,6 +398,10 @@ func genAddSub(r *hx.RNG, l hx.Limits) *opCase {
 		n1 := r.Len(l)
 		k.p = pickPrec(r, 0, l, false)
 		le := clampLE(r.LeadExp(), int64(n1)+2)
+		if r.Chance(15) { // at the bottom of the range: what survives the cancellation may underflow
+			le = oracle.MinExp + int64(r.Range(0, n1+1))
+			k.class = "cancel-underflow"
+		}
 		x := r.Finite(n1, le)
 		dl := r.Range(1, n1)
 		delta := hx.CoefOf(r.Digits(dl))
@@ -374,7 +416,10 @@ func genAddSub(r *hx.RNG, l hx.Limits) *opCase {
 		if r.Bool() {
 			x, y = y, x
 		}
-		k.x, k.y, k.class = x, y, "cancel"
+		k.x, k.y = x, y
+		if k.class == "" {
+			k.class = "cancel"
+		}
 	case shape < 71: // equal or negated operands
 		n1 := r.Len(l)
 		k.p = pickPrec(r, n1, l, true)
@@ -420,6 +465,7 @@ func genAddSub(r *hx.RNG, l hx.Limits) *opCase {
 		k.y = r.Finite(n2, clampLE(le+int64(r.Range(-60, 60)), 200))
 		k.class = "random"
 	}
+	k.hugeOK = true
 	k.attrs(r)
 	return k
 }
@@ -483,6 +529,7 @@ func genMul(r *hx.RNG, l hx.Limits) *opCase {
 		k.y = r.Finite(n2, int64(r.Range(-60, 60)))
 		k.class = "random"
 	}
+	k.hugeOK = true
 	k.attrs(r)
 	return k
 }
@@ -546,6 +593,7 @@ func genQuo(r *hx.RNG, l hx.Limits) *opCase {
 		k.y = r.Finite(n2, int64(r.Range(-60, 60)))
 		k.class = "random"
 	}
+	k.hugeOK = true
 	k.attrs(r)
 	return k
 }
@@ -570,6 +618,7 @@ func genUnary(r *hx.RNG, l hx.Limits, op string) *opCase {
 	}
 	le = clampLE(le, 0)
 	k.x = oracle.Val{Form: oracle.Finite, Neg: r.Bool(), Coef: c, Exp: le - d}
+	k.hugeOK = true
 	k.attrs(r)
 	return k
 }
@@ -625,6 +674,18 @@ func genFMA(r *hx.RNG, l hx.Limits) *opCase {
 		k.class = "cancel"
 		if kk == dp {
 			k.class = "cancel-to-zero"
+		}
+		if r.Chance(12) { // product and u at the bottom of the range (both representable): the sum may underflow
+			shift := oracle.MinExp + int64(r.Range(1, dp+2)) - ple
+			x.Exp += shift / 2
+			y.Exp += shift - shift/2
+			if k.u.Form == oracle.Finite {
+				k.u.Exp += shift
+				if k.u.LeadExp() < oracle.MinExp { // keep u itself representable
+					k.u.Exp += oracle.MinExp - k.u.LeadExp()
+				}
+			}
+			k.class += "-underflow"
 		}
 	case shape < 80: // the sum lands on a rounding-aimed digit string: u = T - x*y
 		if p > 300 {
@@ -701,6 +762,7 @@ func genFMA(r *hx.RNG, l hx.Limits) *opCase {
 		k.class = "range-end"
 	}
 	k.x, k.y = x, y
+	k.hugeOK = true
 	k.attrs(r)
 	return k
 }
@@ -825,7 +887,7 @@ func (k *opCase) execShape(part [4]int, prep func() *decimal.Decimal) (got hx.St
 			}
 			vars[g] = d
 		} else {
-			vars[g] = hx.MkR(or, vals[role], digitsOf(vals[role])+xp[role], xm[role])
+			vars[g] = hx.MkR(or, vals[role], opPrec(vals[role], xp[role]), xm[role])
 		}
 	}
 	z := vars[part[0]]
